@@ -185,11 +185,15 @@ type zzWriter11 struct {
 	failAt int
 	writes int
 	closed bool
+	gate   chan struct{} // a slow disk: the failing write reports its error only once the gate is opened
 }
 
 func (w *zzWriter11) Write(p []byte) (int, error) {
 	w.writes++
 	if w.failAt > 0 && w.writes >= w.failAt {
+		if w.gate != nil {
+			<-w.gate
+		}
 		return 0, errors.New("disk write error")
 	}
 	w.data = append(w.data, p...)
@@ -208,6 +212,9 @@ func zzH_C11_recv() {
 	t.transferConfig.Binary = true
 	size := int64(verifBound("SIZE"))
 	w := &zzWriter11{failAt: verifNondetRange(0, verifBound("DFAIL"))}
+	if verifBoundOr("SLOWFAIL", 0) != 0 && w.failAt > 0 {
+		w.gate = make(chan struct{})
+	}
 	done := false
 	var rerr error
 	go func() {
@@ -242,6 +249,14 @@ func zzH_C11_recv() {
 	}
 	if verifNondetBool() {
 		t.addReceivedData([]byte("#DATA:0\n"), false) // finish frame
+		verifQuiesce()
+	}
+	if w.gate != nil {
+		// the failing write is still pending while the other stages go on (the acknowledgement stage polls the
+		// saved-bytes counter every 200 ms); then the disk reports the error
+		verifAdvanceMs(250)
+		verifQuiesce()
+		close(w.gate)
 		verifQuiesce()
 	}
 	zzSettle11()
